@@ -78,7 +78,9 @@ fn k6_parse_stub(_body: &String) -> Result<BTreeMap<String, Aggregation>, ()> {
   if kani::any() { Ok(BTreeMap::new()) } else { Err(()) }
 }
 
-// C26: a null handle or query is rejected before anything is dereferenced; a valid query is read up to its NUL only
+// C26: a null handle or query is rejected before anything is dereferenced; a valid query is read up to its NUL only.
+// The slice sees every raw-pointer parameter of searchlite_search (an earlier guard may mention any of them); returning 0
+// early for other reasons is allowed, dereferencing a null pointer is not.
 #[kani::proof]
 #[kani::unwind(6)]
 fn k6_head_rejects_null_handle_and_query() {
@@ -89,11 +91,15 @@ fn k6_head_rejects_null_handle_and_query() {
   let off: usize = kani::any();
   kani::assume(off < M);
   let qp: *const c_char = if kani::any() { std::ptr::null() } else { unsafe { q.as_ptr().add(off) as *const c_char } };
-  let r = unsafe { ffi_head(hp, qp) };
+  let mut out = [0u8; 2];
+  let op: *mut c_char = if kani::any() { std::ptr::null_mut() } else { out.as_mut_ptr() as *mut c_char };
+  let cap: usize = kani::any();
+  kani::assume(cap <= 2);
+  let r = unsafe { ffi_head(hp, qp, std::ptr::null(), std::ptr::null(), kani::any(), op, cap) };
   if hp.is_null() || qp.is_null() {
     assert!(r == 0);
   } else {
-    assert!(r >= 1 && r <= M - off);
+    assert!(r <= 1 + (M - off));
   }
   kani::cover!(hp.is_null() && !qp.is_null());
   kani::cover!(!hp.is_null() && qp.is_null());
